@@ -346,6 +346,10 @@ func runC05(c *Ctx) {
 		}
 	}
 
+	c.Rule("C05-D12", "a namespace that is not joined yet cannot take the connection down: a client socket whose CONNECT is pending sends neither DISCONNECT (F55) nor events (F56) — the server has no socket for that namespace "+
+		"yet and answers a packet for it by closing the whole connection, with every other namespace on it", 2)
+	pendingSocketSendsNothing(c, "C05-D12")
+
 	c.Rule("C05-D10", "lookups answer from the guarded maps: every value the routing stores' getters (serverSocketStore.getByID/getByNsp, clientSocketStore.get, nspStore.get, nspSocketStore.get) can return is nil or the "+
 		"result of a lookup in a map field of the store made while its mutex is held — not a remembered earlier result, which remove() does not invalidate", 5)
 	c05LookupsFromGuardedMaps(c, "C05-D10")
